@@ -341,10 +341,10 @@ impl Prop for C01 {
                     s.cfg.k = 31;
                     s.gen.max_len = s.gen.max_len.max(6000);
                 }
-                // every tier: one run in 1500 (hashed over the workers) is LARGE - contigs of up
+                // every tier: one run in 3000 (hashed over the workers) is LARGE - contigs of up
                 // to half a million bases, segments of 10 000..60 000 - because the cost of a
                 // simulated run is its scheduling points, not its bytes (about a second each)
-                if (i.wrapping_mul(0x9E37_79B9_7F4A_7C15) >> 33) % 1500 == 0 {
+                if (i.wrapping_mul(0x9E37_79B9_7F4A_7C15) >> 33) % 3000 == 0 {
                     let mut r = seed::Rng::new(rs ^ 0xB16);
                     s.gen.n_samples = r.range(2, 4) as u32;
                     s.gen.ref_contigs = r.range(1, 3) as u32;
